@@ -149,6 +149,21 @@ pub fn render_wide(_args: &[String]) -> String {
                 }
             }
         }
+        // a wide element on one line of a multi-line template: every template line still gives one frame line
+        for (t, wide_at) in [("{wide_bar}\n{pos}/{len}", 0usize), ("{pos}/{len}\n{wide_bar}", 1), ("{wide_msg}\n{pos}", 0), ("a\n{wide_bar}\nb", 1)] {
+            let style = ProgressStyle::with_template(t).unwrap();
+            let f = frame(&style, Some(10), 3, "hello", "", 0, 0, width);
+            tried += 1;
+            let nlines = t.split('\n').count();
+            let ok = f.lines.len() == nlines && f.lines.iter().enumerate().all(|(i, l)| {
+                if i == wide_at { t.contains("wide_msg") || text_cols(&l.1) == width as usize } else { ["3/10", "3", "a", "b"].contains(&l.1.as_str()) }
+            });
+            if !ok {
+                let got: Vec<&str> = f.lines.iter().map(|l| l.1.as_str()).collect();
+                return format!("{{\"found\": true, \"clause\": \"C13/C10 a wide element on one line of a multi-line template: one frame line per template line, the others untouched\", \"tried\": {}, \"input\": {{\"template\": {}, \"width\": {}, \"rendered\": {}}}, \"rerun\": \"replay render_wide\"}}",
+                    tried, crate::js(t), width, crate::jlist(&got));
+            }
+        }
         // double-width and combining text next to a wide_bar: the line is still exactly as wide as the terminal
         for (t, pfx, msg) in [("{msg} {wide_bar}", "", "日本語"), ("進捗 [{wide_bar}] {pos}/{len}", "", ""), ("{prefix}{wide_bar}|", "e\u{301}e\u{301}", "")] {
             if width < 20 {
